@@ -1766,16 +1766,15 @@ class MindsDBParser(Parser):
         return p[0]
 
     @_('identifier DOT identifier',
-       'identifier DOT integer',
+       'identifier DOT INTEGER',
        'identifier DOT dquote_string',
        'identifier DOT star')
     def identifier(self, p):
         node = p[0]
         if isinstance(p[2], Star):
             node.parts.append(p[2])
-        elif isinstance(p[2], int):
-            node.parts.append(str(p[2]))
         elif isinstance(p[2], str):
+            # a quoted name, or digits as they are written (`t.007` is the name 007, not 7)
             node.parts.append(p[2])
         else:
             node.parts += p[2].parts
